@@ -325,7 +325,8 @@ Proof.
 Qed.
 
 Lemma L_poll c s i :
-  InvGate c s -> main s = MGate i -> InvGate c (with_hist (set_main s (MGateCheck i)) (EPoll i true)).
+  InvGate c s -> main s = MGate i ->
+  InvGate c (with_hist (set_polling (set_main s (MGateCheck i)) false) (EPoll i true)).
 Proof.
   intros I Em.
   eapply InvGate_gen; [exact I|..]; unfold rn_at in *; simp_st; auto.
@@ -338,7 +339,7 @@ Proof.
   - intros i0 E0. injection E0 as <-. unfold mem_ev. cbn [existsb]. now rewrite event_eqb_refl.
   - intros j L E N; congruence.
   - exact (ig_own _ _ I).
-  - pose proof (sd_keep c s (with_hist (set_main s (MGateCheck i)) (EPoll i true)) I eq_refl eq_refl) as X.
+  - pose proof (sd_keep c s (with_hist (set_polling (set_main s (MGateCheck i)) false) (EPoll i true)) I eq_refl eq_refl) as X.
     apply X. right. eexists. reflexivity.
 Qed.
 
